@@ -40,5 +40,5 @@ Definition c12_im (c : c12_case) : bool :=
 Definition c12_is (c : c12_case) : bool :=
   match c with
   | CTok _ _ _ _ _ _ leaked => leaked =? 0
-  | CPipe _ _ _ _ _ lft cpu_ms => (lft =? 0) && (cpu_ms <=? 60)
+  | CPipe _ _ _ _ _ lft cpu_ms => (lft =? 0) && (cpu_ms <=? 200)
   end.
